@@ -37,6 +37,12 @@ var vApp *Flame
 func VH_C05_setup() {
 	f := NewWithLogger(io.Discard)
 	f.Use(Recovery())
+	f.Use(func(c Context) { // a logger-like middleware: reads the writer after the rest of the chain ran
+		c.Next()
+		if c.ResponseWriter().Status()+c.ResponseWriter().Size() > 0 {
+			c.ResponseWriter().Header().Set("X-After", "1") // request-local effect only
+		}
+	})
 	f.Use(func(c Context) { c.Map(&vReqVal{tag: len(c.Request().URL.Path)}) }) // request-scoped Map
 	f.Use(Renderer())
 	f.Map(&vSvc{name: "svc"})
@@ -82,6 +88,7 @@ func vServeOnce(path string, hasHdr bool, method string) (int, string) {
 
 func VH_C05_request() {
 	vx.Monitor(true)
+	vx.PoolReuse(true) // a sync.Pool may hand back what was Put: objects must not be used after Put
 	vx.EpochMark()
 	path := vx.Param("prefix") + vx.String(vx.ParamInt("n"))
 	hasHdr := vx.Bool()
@@ -94,5 +101,6 @@ func VH_C05_request() {
 	code2, body2 := vServeOnce(path, hasHdr, method)
 	vx.Assert(code1 == code2 && body1 == body2, "C05: a request's response does not depend on requests served before it")
 	vx.Monitor(false)
+	vx.PoolReuse(false)
 	vx.Observe("served", path, method, hasHdr, code1, body1)
 }
